@@ -7,7 +7,7 @@
 //@function src/engine/materialize/store/codec/value_codec.rs::decode_value_fast
 //@harness name=codec_integer_roundtrip kind=complete tier=quick timeout=900
 //@harness name=codec_float_roundtrip kind=complete tier=quick timeout=900
-//@harness name=codec_bool_roundtrip kind=complete tier=quick timeout=900
+//@harness name=codec_bool_roundtrip kind=complete tier=thorough timeout=1800 gate=yes
 //@harness name=codec_short_input_rejected kind=complete tier=quick timeout=900 stubs=yes
 //@obligation C14.value_codec.integer_roundtrip : an Int64 / Timestamp cell stored in a materialized frame decodes to the same integer and consumes exactly its 8 bytes, for all i64
 //@obligation C14.value_codec.float_roundtrip : finite Float64 cells decode bit-exactly
